@@ -8,19 +8,20 @@ package object
 import (
 	"io"
 	"path/filepath"
+	"sync"
 )
 
 // NewEnv makes new environment of variables.
 func NewEnv() *Env {
 	s := make(map[SymHash]PanObject)
-	return &Env{s, nil}
+	return &Env{Store: s}
 }
 
 // NewEnclosedEnv makes new environment of variables inside e.
 // It is used to make closure.
 func NewEnclosedEnv(e *Env) *Env {
 	s := make(map[SymHash]PanObject)
-	return &Env{s, e}
+	return &Env{Store: s, outer: e}
 }
 
 // NewEnvWithConsts makes new global environment, which includes all standart objects.
@@ -71,9 +72,11 @@ func NewEnvWithConsts() *Env {
 func NewCopiedEnv(env *Env) *Env {
 	newStore := map[SymHash]PanObject{}
 	// copy all variables to new store
+	env.mu.RLock()
 	for k, v := range env.Store {
 		newStore[k] = v
 	}
+	env.mu.RUnlock()
 
 	return &Env{
 		Store: newStore,
@@ -85,11 +88,16 @@ func NewCopiedEnv(env *Env) *Env {
 type Env struct {
 	Store map[SymHash]PanObject
 	outer *Env
+	// NOTE: an env may be shared by goroutines
+	// (http handlers refer outer envs while main script sets variables)
+	mu sync.RWMutex
 }
 
 // Get fetches variable value from the environment.
 func (e *Env) Get(h SymHash) (PanObject, bool) {
+	e.mu.RLock()
 	obj, ok := e.Store[h]
+	e.mu.RUnlock()
 
 	// if not found, search outer scope
 	if !ok && e.outer != nil {
@@ -101,13 +109,15 @@ func (e *Env) Get(h SymHash) (PanObject, bool) {
 
 // Set sets variable to the environment.
 func (e *Env) Set(h SymHash, obj PanObject) {
+	e.mu.Lock()
 	e.Store[h] = obj
+	e.mu.Unlock()
 }
 
 // Items returns all variables in the environment as obj.
 func (e *Env) Items() PanObject {
 	pairs := make(map[SymHash]Pair)
-	for h, obj := range e.Store {
+	for h, obj := range NewCopiedEnv(e).Store {
 		strObj, ok := SymHash2Str(h)
 
 		if !ok {
